@@ -260,7 +260,7 @@ K(v) == <<"k", v>>
 Pairs(S) == {p \in S \X S : p[1] # p[2]}
 Samp(k, S) == IF SampleK = 0 \/ Cardinality(S) <= k THEN S ELSE RandomSubset(k, S)
 KindCols(cols, k) == {c \in SetOf(cols) : Kind[c] = k}
-KeyCols(cols) == {c \in SetOf(cols) : Kind[c] # "b"}
+KeyCols(cols) == {c \in SetOf(cols) : Kind[c] \notin {"b", "q"}}      \* "q": columns that may hold fractions (means)
 
 \* Dependency-directed generation: columns written by the previous step are preferred as keys, sources
 \* and operands of the next step, so that interactions between consecutive steps (builder merges, SQL
@@ -344,6 +344,7 @@ ExtendSteps(cols) ==
 WinAsg(N) ==
   {<<"w", fn, c, 0>> : fn \in {"sum", "max", "min", "count", "size"}, c \in N}
   \cup {<<"w", "_size", "", 0>>}
+  \cup (IF Level >= 2 THEN {<<"m", "mean", c, 0>> : c \in N} ELSE {})
 OrdAsg(N) ==
   {<<"w", fn, c, 0>> : fn \in {"cumsum", "cummax", "cummin"}, c \in N}
   \cup {<<"w", "shift", c, n>> : c \in N, n \in (IF Level = 1 THEN {1} ELSE {1, 2, 0 - 1})}
@@ -361,6 +362,7 @@ WExtendSteps(cols) ==
 ProjAsg(N) ==
   {<<"z", fn, c>> : fn \in {"sum", "max", "min", "count", "size"}, c \in N}
   \cup {<<"z", "_size", "">>}
+  \cup (IF Level >= 2 THEN {<<"m", "mean", c>> : c \in N} \cup {<<"z", "nunique", c>> : c \in N} ELSE {})
 ProjectSteps(cols) ==
   LET N == KindCols(cols, "n") KC == KeyCols(cols) IN
   {<<"project", <<a>>, g>> : a \in Bias(3, ProjAsg(N), AsgT), g \in Bias(3, KeyLists(KC, Level), HasT)}
